@@ -107,6 +107,9 @@ const (
 	BRINPageTypeMeta    = 0xF091
 	BRINPageTypeRevmap  = 0xF092
 	BRINPageTypeRegular = 0xF093
+
+	// BRIN page flags (second-to-last uint16 of the special space)
+	BRINEvacuatePage = 1 << 0
 )
 
 // IndexPageInfo contains parsed index page information
@@ -326,6 +329,8 @@ func parseIndexPage(page []byte, pageNum uint32, indexType IndexType) IndexPageI
 			parseGINPageSpecial(&info, specialData)
 		case IndexTypeSPGiST:
 			parseSPGiSTPageSpecial(&info, specialData)
+		case IndexTypeBRIN:
+			parseBRINPageSpecial(&info, specialData)
 		}
 	}
 	
@@ -482,6 +487,23 @@ func parseSPGiSTPageSpecial(info *IndexPageInfo, special []byte) {
 	}
 	if info.Flags&SPGISTNulls != 0 {
 		info.FlagStrings = append(info.FlagStrings, "NULLS")
+	}
+}
+
+// parseBRINPageSpecial parses BRIN special section
+func parseBRINPageSpecial(info *IndexPageInfo, special []byte) {
+	if len(special) < 8 {
+		return
+	}
+
+	// BrinSpecialSpace: uint16 vector[4]; flags = vector[2], page type = vector[3]
+	info.Flags = binary.LittleEndian.Uint16(special[4:6])
+	pageType := binary.LittleEndian.Uint16(special[6:8])
+
+	info.IsMeta = pageType == BRINPageTypeMeta
+
+	if info.Flags&BRINEvacuatePage != 0 {
+		info.FlagStrings = append(info.FlagStrings, "EVACUATE_PAGE")
 	}
 }
 
